@@ -17,8 +17,9 @@ Definition bytes := list N.
 Definition frame := bytes.
 Definition token := N.
 Definition len {A} (l : list A) : N := N.of_nat (length l).
-Definition nfirst {A} (n : N) (l : list A) := firstn (N.to_nat n) l.
-Definition nskip {A} (n : N) (l : list A) := skipn (N.to_nat n) l.
+(* counts are clamped to the list length before conversion to nat (buffer_limit may be usize::MAX) *)
+Definition nfirst {A} (n : N) (l : list A) := firstn (N.to_nat (N.min n (len l))) l.
+Definition nskip {A} (n : N) (l : list A) := skipn (N.to_nat (N.min n (len l))) l.
 
 (* ---------------------------------------------------------------- framing (prost, LEB128) *)
 Fixpoint varint_fuel (fuel : nat) (n : N) : bytes :=
@@ -133,7 +134,12 @@ Definition decrement_clients (s : state) : state :=
   mkState (clients s) (metadata s) (count - 1)%Z
           (if (count =? 1)%Z then false else should_send s) (next_token s) (gone s).
 
-Definition bytes_eqb (a b : bytes) : bool := if list_eq_dec N.eq_dec a b then true else false.
+Fixpoint bytes_eqb (a b : bytes) : bool :=
+  match a, b with
+  | [], [] => true
+  | x :: r, y :: r' => (x =? y) && bytes_eqb r r'
+  | _, _ => false
+  end.
 
 Fixpoint lookup {A} (t : token) (l : list (token * A)) : option A :=
   match l with
